@@ -426,24 +426,17 @@ impl Scala {
     }
 
     fn begin_package_object(&mut self, w: &mut dyn Write) -> std::io::Result<()> {
-        match self.package.rsplit_once('.') {
-            None => {}
-            Some((_parent, last)) => {
-                writeln!(w, "package object {} {{", last)?;
-                writeln!(w)?;
-            }
-        };
+        // the last segment of the package name; a package name without a dot is its own last segment
+        let last = self.package.rsplit('.').next().unwrap_or(&self.package);
+        writeln!(w, "package object {} {{", last)?;
+        writeln!(w)?;
         Ok(())
     }
 
     fn begin_package(&mut self, w: &mut dyn Write) -> std::io::Result<()> {
-        match self.package.rsplit_once('.') {
-            None => {}
-            Some((_parent, last)) => {
-                writeln!(w, "package {} {{", last)?;
-                writeln!(w)?;
-            }
-        };
+        let last = self.package.rsplit('.').next().unwrap_or(&self.package);
+        writeln!(w, "package {} {{", last)?;
+        writeln!(w)?;
         Ok(())
     }
 
